@@ -68,6 +68,10 @@ struct wrap_state
     long inflate_calls = 0, deflate_calls = 0;
     long bad_region = 0;  // calls whose [next_in, next_in+avail_in) was not addressable
     long inflate_limit = 200000;
+    // deflate call trace (codecs package: zlib_compress loops, C03)
+    struct dcall { int flush; unsigned in_before, out_before, consumed, produced; int ret; };
+    bool dtrace = false;
+    std::vector<dcall> dcalls;
 };
 extern wrap_state g_wrap;
 }  // namespace djv
